@@ -650,3 +650,42 @@ M('svd-derived-factor-relative-floor-missing-sqrt', 'C16', 'shape-predicates-agr
   [('contrib/PartialSVDSolver.h', "return m_mat.transpose() * (m_evecs.leftCols(nv).array().rowwise() / m_eigs->eigenvalues().head(nv).transpose().array().sqrt()).matrix();",
     "return m_mat.transpose() * (m_evecs.leftCols(nv).array().rowwise() / m_eigs->eigenvalues().head(nv).transpose().array()).matrix();")],
   'V scaled by 1/lambda instead of 1/sigma')
+
+B_ = 'LinAlg/BKLDLT.h'
+M('bkldlt-lambda-scan-includes-end', 'C13', 'packed-storage-index-contracts',
+  [(B_, 'for (const Scalar* ptr = head + 2; ptr < end; ptr++)', 'for (const Scalar* ptr = head + 2; ptr <= end; ptr++)')], 'reads the first entry of the next column (past the storage for the last column)')
+M('bkldlt-elimination-view-one-too-long', 'C13', 'packed-storage-index-contracts',
+  [(B_, 'MapVec(col_pointer(j + k + 1), ldim - j).noalias() -= (l_conj / akk) * l.tail(ldim - j);', 'MapVec(col_pointer(j + k + 1), ldim - j + 1).noalias() -= (l_conj / akk) * l.tail(ldim - j);')])
+M('bkldlt-2x2-block-length', 'C13', 'packed-storage-index-contracts',
+  [(B_, 'const Index ldim = m_n - k - 2;', 'const Index ldim = m_n - k - 1;')], 'views of the two eliminated columns run one past their end')
+M('bkldlt-main-loop-includes-last-column', 'C13', 'packed-storage-index-contracts',
+  [(B_, 'for (k = 0; k < m_n - 1; k++)', 'for (k = 0; k < m_n; k++)')], 'pivot search called on the last column: reads A[n, n-1]')
+M('bkldlt-sigma-search-on-last-column', 'C13', 'packed-storage-index-contracts',
+  [(B_, '''        if (r < m_n - 1)
+            sigma = find_lambda(r, p);''', '''        if (r < m_n)
+            sigma = find_lambda(r, p);''')])
+M('bkldlt-coeff-transposed-index', 'C13', 'packed-storage-index-contracts',
+  [(B_, 'const RealScalar abs_elem = abs(coeff(r, j));', 'const RealScalar abs_elem = abs(coeff(j, r));')], 'reads above the diagonal: not in the packed triangle')
+M('bkldlt-column-lengths', 'C13', 'packed-storage-index-contracts',
+  [(B_, 'head += (m_n - i);', 'head += (m_n - i - 1);')], 'layout assumed by every pointer proof')
+N('bkldlt-loops-rewritten', 'C13',
+  [(B_, 'for (const Scalar* ptr = head + 2; ptr < end; ptr++)', 'for (const Scalar* ptr = head + 2; end > ptr; ptr++)'),
+   (B_, 'for (k = 0; k < m_n - 1; k++)', 'for (k = 0; k + 1 < m_n; k++)')], 'same ranges')
+
+M('hesseigen-zero-matrix-guard-removed', 'C09', 'scale-divisor-guarded',
+  [('LinAlg/UpperHessenbergEigen.h', '''        if (scale == Scalar(0))
+        {
+            m_matT.resize(m_n, m_n);
+            m_matT.setZero();
+            m_eivec.resize(m_n, m_n);
+            m_eivec.setIdentity();
+            m_eivalues.resize(m_n);
+            m_eivalues.setZero();
+            m_computed = true;
+            return;
+        }
+''', '')], 'reverts fix F10: 0/0 for the zero matrix')
+M('tridiageigen-zero-matrix-guard-removed', 'C09', 'scale-divisor-guarded',
+  [('LinAlg/TridiagEigen.h', 'if (scale < near_0)\n', 'if (false && scale < near_0)\n')], 'the sibling guard')
+M('hessenberg-norm-skips-last-column', 'C09', 'zero-matrix-test-covers-all-entries',
+  [('LinAlg/UpperHessenbergSchur.h', 'for (Index j = 0; j < n; j++)\n            norm +=', 'for (Index j = 0; j < n - 1; j++)\n            norm +=')], 'the last column is left out of the norm')
